@@ -1,5 +1,6 @@
 //! vcheck: one binary, one subcommand per property. See /verif/DESIGN.md.
 #![allow(dead_code)]
+mod artefacts;
 mod certeval;
 mod certspace;
 mod glue;
